@@ -60,13 +60,14 @@ func init() {
 			}
 			return blocked && later
 		},
-		Rule:     "scripted block/finish/panic patterns on the real Limiter, limits -2..5; non-trivial = some submission blocked on a full channel and started after a release; distinct by hash of the script",
+		Rule:     "scripted block/finish/panic patterns on the real Limiter (panic values of 14 dynamic types, Wait(d) expiring in between), limits -2..5; non-trivial = some submission blocked on a full channel and started after a release; distinct by hash of the script",
 		Classify: classify,
 		Parallel: false, // goroutine dumps (deadlock proof) must see one script at a time
 		NoShrink: true,
 		Extras: []core.Extra{
 			{Name: "trace-acceptance", Run: traceExtra},
 			{Name: "stress", Run: stressExtra},
+			{Name: "recover-direct", Run: recoverExtra},
 		},
 		Assumptions: []string{
 			"Go channel semantics (buffered channel of capacity n blocks the (n+1)-th send) and sync.WaitGroup semantics (Wait returns only when the counter is zero)",
@@ -114,8 +115,156 @@ func (e evt) String() string {
 
 type task struct {
 	id      int
-	panicV  *int
+	panicV  *string // value token: n | nil | err:n | cus:n
 	release chan struct{}
+	gid     atomic.Value // string: id of the goroutine that runs the function
+}
+
+// Panic values of different dynamic types (the handler must get the VALUE, not a
+// rendering of it): int, nil (Go turns panic(nil) into *runtime.PanicNilError),
+// an error, a value of a harness-defined struct type.
+type customPanic struct {
+	N   int
+	Tag string
+}
+
+type scriptedErr struct{ n int }
+
+func (e scriptedErr) Error() string { return "scripted error " + strconv.Itoa(e.n) }
+
+// Unusual dynamic types: typed nil pointer / map / slice / func / chan (non-nil
+// interface values that "carry nothing"), run-time errors raised by the Go runtime, a
+// struct wrapping a nil error.
+var specialVals = []string{"nil", "tnp", "nmap", "nslice", "nfunc", "nchan", "rtmap", "rtidx", "rtnil", "wrapnil"}
+
+type wrapNil struct{ Err error }
+
+func validTok(tok string) bool {
+	for _, sv := range specialVals {
+		if tok == sv {
+			return true
+		}
+	}
+	for _, pre := range []string{"err:", "cus:"} {
+		if strings.HasPrefix(tok, pre) {
+			n, err := strconv.Atoi(tok[len(pre):])
+			return err == nil && n >= 0 && strconv.Itoa(n) == tok[len(pre):]
+		}
+	}
+	n, err := strconv.Atoi(tok)
+	return err == nil && strconv.Itoa(n) == tok
+}
+
+// doPanic panics as the token says (the run-time errors are raised by really doing the
+// faulting operation).
+func doPanic(tok string) {
+	switch tok {
+	case "rtmap":
+		var m map[string]int
+		m["x"] = 1
+	case "rtidx":
+		xs := make([]int, 1)
+		i := 3
+		_ = xs[i]
+	case "rtnil":
+		var p *customPanic
+		_ = p.N
+	}
+	panic(panicValue(tok))
+}
+
+func panicValue(tok string) any {
+	switch {
+	case tok == "nil":
+		return nil
+	case tok == "tnp":
+		return (*int)(nil)
+	case tok == "nmap":
+		return map[string]int(nil)
+	case tok == "nslice":
+		return []int(nil)
+	case tok == "nfunc":
+		return (func())(nil)
+	case tok == "nchan":
+		return (chan int)(nil)
+	case tok == "wrapnil":
+		return wrapNil{Err: nil}
+	case strings.HasPrefix(tok, "err:"):
+		n, _ := strconv.Atoi(tok[4:])
+		return error(scriptedErr{n})
+	case strings.HasPrefix(tok, "cus:"):
+		n, _ := strconv.Atoi(tok[4:])
+		return customPanic{N: n, Tag: "c"}
+	}
+	n, _ := strconv.Atoi(tok)
+	return n
+}
+
+// tokOf renders what the handler received back into a token (by dynamic type).
+func tokOf(v any) string {
+	switch x := v.(type) {
+	case int:
+		return strconv.Itoa(x)
+	case *runtime.PanicNilError:
+		return "nil"
+	case *int:
+		if x == nil {
+			return "tnp"
+		}
+		return "other:*int-non-nil"
+	case map[string]int:
+		if x == nil {
+			return "nmap"
+		}
+		return "other:map-non-nil"
+	case []int:
+		if x == nil {
+			return "nslice"
+		}
+		return "other:slice-non-nil"
+	case func():
+		if x == nil {
+			return "nfunc"
+		}
+		return "other:func-non-nil"
+	case chan int:
+		if x == nil {
+			return "nchan"
+		}
+		return "other:chan-non-nil"
+	case wrapNil:
+		if x.Err == nil {
+			return "wrapnil"
+		}
+		return "other:wrapNil-altered"
+	case runtime.Error:
+		msg := x.Error()
+		switch {
+		case strings.Contains(msg, "assignment to entry in nil map"):
+			return "rtmap"
+		case strings.Contains(msg, "index out of range"):
+			return "rtidx"
+		case strings.Contains(msg, "nil pointer dereference"):
+			return "rtnil"
+		}
+		return "other:runtime.Error:" + strings.ReplaceAll(msg, " ", "_")
+	case scriptedErr:
+		return "err:" + strconv.Itoa(x.n)
+	case customPanic:
+		if x.Tag == "c" {
+			return "cus:" + strconv.Itoa(x.N)
+		}
+		return "other:customPanic-altered"
+	case string:
+		if strings.HasPrefix(x, "cleanup panic") {
+			return "cleanup-panic"
+		}
+		return "string:" + strings.ReplaceAll(x, " ", "_")
+	case nil:
+		return "other:untyped-nil"
+	default:
+		return fmt.Sprintf("other:%T", v)
+	}
 }
 
 type player struct {
@@ -130,7 +279,10 @@ type player struct {
 	n          int
 	holding    map[int]bool // started and not yet released by the script
 	pending    []int
-	waiting    int // Wait() calls that have not returned
+	waiting    int    // Wait() calls that have not returned
+	timedWaits int    // Wait(d) calls that may have left their helper goroutine behind
+	overflow   bool   // a submission started although n functions were inside: the script's expectations are void
+	noHandler  string // proof that a panic value can no longer reach the handler
 	incon      bool
 	deadlocked string
 }
@@ -165,6 +317,26 @@ func (p *player) awaitLen(n int, d time.Duration) bool {
 	return true
 }
 
+// awaitLenProof is awaitLen with an early exit: every 50 ms `proof` is asked whether the
+// awaited events can provably never come.
+func (p *player) awaitLenProof(n int, d time.Duration, proof func() bool) bool {
+	deadline := time.Now().Add(d)
+	for {
+		if p.awaitLen(n, 50*time.Millisecond) {
+			return true
+		}
+		if proof() {
+			return false
+		}
+		if !time.Now().Before(deadline) {
+			if d >= 100*time.Millisecond {
+				slowSpent.Add(int64(d))
+			}
+			return false
+		}
+	}
+}
+
 func (p *player) logLen() int {
 	p.mu.Lock()
 	defer p.mu.Unlock()
@@ -181,29 +353,19 @@ func newPlayer(limit int) *player {
 	p := &player{holding: map[int]bool{}}
 	p.cond = sync.NewCond(&p.mu)
 	p.l = goz.NewLimiter(limit).SetPanicHandler(func(v any) {
-		switch x := v.(type) {
-		case int:
-			p.emit("handler", strconv.Itoa(x))
-		case string:
-			if strings.HasPrefix(x, "cleanup panic") {
-				p.emit("handler", "cleanup-panic")
-			} else {
-				p.emit("handler", "string:"+strings.ReplaceAll(x, " ", "_"))
-			}
-		default:
-			p.emit("handler", fmt.Sprintf("other:%T", v))
-		}
+		p.emit("handler", tokOf(v))
 	})
 	p.subQ = make(chan *task, 1024)
 	go func() {
 		for t := range p.subQ {
 			t := t
 			p.l.Go(func() {
+				t.gid.Store(goid())
 				p.emit("start", strconv.Itoa(t.id))
 				<-t.release
 				p.emit("finish", strconv.Itoa(t.id))
 				if t.panicV != nil {
-					panic(*t.panicV)
+					doPanic(*t.panicV)
 				}
 			})
 		}
@@ -240,6 +402,65 @@ func provenDeadlock(who string) bool {
 	return blocked && workers == 0
 }
 
+// helperBaseline: helper goroutines of Wait(d) that belong to abandoned (cut-short)
+// scripts; they stay parked for ever and must not be waited for.
+var helperBaseline int
+
+func countWaitHelpers() int {
+	buf := make([]byte, 1<<20)
+	for {
+		n := runtime.Stack(buf, true)
+		if n < len(buf) {
+			return strings.Count(string(buf[:n]), "goz.(*Limiter).Wait.func1(")
+		}
+		buf = make([]byte, 2*len(buf))
+	}
+}
+
+// awaitNoWaitHelper waits until no goroutine of THIS script is inside the helper of
+// Limiter.Wait(d) (scripts run one at a time; helpers of abandoned scripts are in the
+// baseline).
+func awaitNoWaitHelper(d time.Duration) bool {
+	deadline := time.Now().Add(d)
+	for {
+		if countWaitHelpers() <= helperBaseline {
+			return true
+		}
+		if time.Now().After(deadline) {
+			return false
+		}
+		time.Sleep(200 * time.Microsecond)
+	}
+}
+
+func goid() string {
+	buf := make([]byte, 64)
+	buf = buf[:runtime.Stack(buf, false)]
+	f := strings.Fields(string(buf)) // "goroutine 123 [running]:"
+	if len(f) >= 2 {
+		return f[1]
+	}
+	return "?"
+}
+
+// goroutineGone: the goroutine that ran the task's function no longer exists.
+func goroutineGone(t *task) bool {
+	id, _ := t.gid.Load().(string)
+	if id == "" || id == "?" {
+		return false
+	}
+	buf := make([]byte, 1<<20)
+	for {
+		n := runtime.Stack(buf, true)
+		if n < len(buf) {
+			buf = buf[:n]
+			break
+		}
+		buf = make([]byte, 2*len(buf))
+	}
+	return !strings.Contains("\n\n"+string(buf), "\n\ngoroutine "+id+" [")
+}
+
 func render(ev []evt, dflt string) string {
 	if len(ev) == 0 {
 		return dflt
@@ -252,6 +473,16 @@ func render(ev []evt, dflt string) string {
 }
 
 func (p *player) finishScript() {
+	if p.timedWaits > 0 && (p.incon || p.deadlocked != "" || p.overflow || p.noHandler != "") {
+		// The script was cut short with tasks / queued submissions left AND the helper
+		// goroutine of an expired Wait(d) may still sit in l.w.Wait(). Draining now could
+		// take the WaitGroup counter through zero right before a queued Add(1), which
+		// makes sync.WaitGroup panic inside that helper and kills the whole check process
+		// (real-code behaviour outside this property, review §2). Leave everything
+		// parked instead: a few goroutines leak, nothing moves any more.
+		helperBaseline = countWaitHelpers()
+		return
+	}
 	// let everything drain so no goroutine outlives the case
 	for _, t := range p.tasks {
 		select {
@@ -264,8 +495,8 @@ func (p *player) finishScript() {
 }
 
 func (p *player) op(t []string) string {
-	if p.incon || p.deadlocked != "" {
-		return "skipped" // the script's expectation is void after a timeout
+	if p.incon || p.deadlocked != "" || p.overflow || p.noHandler != "" {
+		return "skipped" // the script's expectation is void after a timeout / a witnessed violation
 	}
 	from := p.logLen()
 	switch t[0] {
@@ -281,13 +512,24 @@ func (p *player) op(t []string) string {
 		switch {
 		case t[2] == "ok" && len(t) == 3:
 		case t[2] == "panic" && len(t) == 4:
-			v, err := strconv.Atoi(t[3])
-			if err != nil {
+			if !validTok(t[3]) {
 				return "bad-op"
 			}
+			v := t[3]
 			tk.panicV = &v
 		default:
 			return "bad-op"
+		}
+		if p.timedWaits > 0 && len(p.holding) == 0 && len(p.pending) == 0 {
+			// The helper goroutine of an expired Wait(d) sits in l.w.Wait() until the counter
+			// reaches zero. sync.WaitGroup forbids an Add from zero while such a Wait has not
+			// returned ("WaitGroup is reused before previous Wait has returned" — a crash of
+			// the real code that is outside this property, see the review): let it leave first.
+			if !awaitNoWaitHelper(longWait()) {
+				p.incon = true
+				return "inconclusive"
+			}
+			p.timedWaits = 0
 		}
 		p.tasks = append(p.tasks, tk)
 		p.subQ <- tk
@@ -317,6 +559,7 @@ func (p *player) op(t []string) string {
 			p.pending = append(p.pending, id)
 		} else {
 			p.holding[id] = true // it started although the channel should be full
+			p.overflow = true    // (Check reports the overlap; the rest of the script is void)
 		}
 		return render(ev, "blocked")
 	case "release":
@@ -342,11 +585,21 @@ func (p *player) op(t []string) string {
 		if p.waiting > 0 && len(p.holding) == 0 && len(p.pending) == 0 {
 			want += p.waiting
 		}
-		if !p.awaitLen(from+want, longWait()) {
+		handlerLost := func() bool {
+			ev := p.since(from)
+			return tk.panicV != nil && hasEvt(ev, "finish") && !hasEvt(ev, "handler") && goroutineGone(tk)
+		}
+		if !p.awaitLenProof(from+want, longWait(), handlerLost) {
 			ev := p.since(from)
 			if startNext >= 0 && !hasEvt(ev, "start") && provenDeadlock("goz.(*Limiter).add") {
 				p.deadlocked = fmt.Sprintf("after task %d left its function the queued submission %d stays blocked in add() and no worker goroutine exists that could return a token (slot leaked)", id, startNext)
 				return render(ev, "") + " | deadlock"
+			}
+			if tk.panicV != nil && hasEvt(ev, "finish") && !hasEvt(ev, "handler") && goroutineGone(tk) {
+				// the function has left (finish is logged) and the goroutine that ran it
+				// (goz.Recover) has ended: the handler can never be called for this panic
+				p.noHandler = fmt.Sprintf("task %d panicked with %s, the goroutine that ran it inside goz.Recover has ended and the handler was never called", id, *tk.panicV)
+				return render(ev, "") + " | handler-missing"
 			}
 			if p.waiting > 0 && !hasEvt(ev, "waitret") && provenDeadlock("sync.(*WaitGroup).Wait") {
 				p.deadlocked = fmt.Sprintf("after task %d left its function Wait() stays blocked and no worker goroutine exists that could call Done", id)
@@ -399,6 +652,28 @@ func (p *player) op(t []string) string {
 			}
 		}
 		return render(ev, "waiting")
+	case "waitt":
+		// Wait(d), d > 0: returns when idle or when d has expired; must leave the Limiter
+		// as it was. The answer carries no timing; what the call did to the slots shows in
+		// the following ops (a start that should have blocked = `bound` violation).
+		if len(t) != 2 {
+			return "bad-op"
+		}
+		ms, err := strconv.Atoi(t[1])
+		if err != nil || ms <= 0 || strconv.Itoa(ms) != t[1] {
+			return "bad-op"
+		}
+		p.timedWaits++
+		ret := make(chan struct{})
+		go func() { p.l.Wait(time.Duration(ms) * time.Millisecond); close(ret) }()
+		select {
+		case <-ret:
+		case <-time.After(longWait()):
+			slowSpent.Add(int64(longWaitD))
+			p.incon = true
+			return "inconclusive"
+		}
+		return "timedwait"
 	case "k":
 		if len(t) != 1 {
 			return "bad-op"
@@ -443,6 +718,7 @@ func hasEvt(ev []evt, kind string) bool {
 // same goroutine; Parallel is false)
 var lastIncon bool
 var lastDeadlock string
+var lastNoHandler string
 
 // impl plays the script; a run that hit a generous timeout without a deadlock proof
 // is inconclusive and is played again (a timeout alone is never a violation).
@@ -459,7 +735,7 @@ func impl(c core.Case) []string {
 
 func implOnce(c core.Case) []string {
 	var p *player
-	lastIncon, lastDeadlock = false, ""
+	lastIncon, lastDeadlock, lastNoHandler = false, "", ""
 	out := core.RunOps(c,
 		func(hdr []string) string {
 			if len(hdr) != 2 || hdr[0] != "lim" {
@@ -480,7 +756,7 @@ func implOnce(c core.Case) []string {
 			return p.op(t)
 		})
 	if p != nil {
-		lastIncon, lastDeadlock = p.incon, p.deadlocked
+		lastIncon, lastDeadlock, lastNoHandler = p.incon, p.deadlocked, p.noHandler
 		p.finishScript()
 	}
 	return out
@@ -501,8 +777,11 @@ func check(c core.Case, out []string) *core.Failure {
 	if lastDeadlock != "" {
 		return &core.Failure{Key: "deadlock", Desc: lastDeadlock}
 	}
+	if lastNoHandler != "" {
+		return &core.Failure{Key: "handler", Desc: lastNoHandler}
+	}
 	type tinfo struct {
-		panicV            *int
+		panicV            *string
 		started, finished int
 		handled           int
 	}
@@ -515,7 +794,7 @@ func check(c core.Case, out []string) *core.Failure {
 		case "go":
 			ti := &tinfo{}
 			if len(t) == 4 {
-				v, _ := strconv.Atoi(t[3])
+				v := t[3]
 				ti.panicV = &v
 			}
 			tasks = append(tasks, ti)
@@ -560,7 +839,7 @@ func check(c core.Case, out []string) *core.Failure {
 			case "handler":
 				ok := false
 				for _, ti := range tasks {
-					if ti.panicV != nil && ti.finished > 0 && ti.handled == 0 && strconv.Itoa(*ti.panicV) == f[1] {
+					if ti.panicV != nil && ti.finished > 0 && ti.handled == 0 && *ti.panicV == f[1] {
 						ti.handled++
 						ok = true
 						break
@@ -593,7 +872,7 @@ func check(c core.Case, out []string) *core.Failure {
 		if t[0] == "release" && !strings.Contains(out[i], "inconclusive") && !strings.Contains(out[i], "deadlock") {
 			id, _ := strconv.Atoi(t[1])
 			if id < len(tasks) && tasks[id].panicV != nil && tasks[id].finished > 0 && tasks[id].handled == 0 {
-				return &core.Failure{Key: "handler", Desc: fmt.Sprintf("op %d %q: task %d panicked with %d but the handler did not receive it before the next observable event", i, c.Lines[i], id, *tasks[id].panicV)}
+				return &core.Failure{Key: "handler", Desc: fmt.Sprintf("op %d %q: task %d panicked with %s but the handler did not receive it before the next observable event", i, c.Lines[i], id, *tasks[id].panicV)}
 			}
 		}
 	}
@@ -614,6 +893,18 @@ func corpus() []core.Case {
 		{Lines: []string{"@ C19 lim 0", "go 0 ok", "go 1 ok", "go 2 ok", "go 3 ok", "k", "release 1", "wait", "release 0", "release 2", "release 3", "k"}},
 		{Lines: []string{"@ C19 lim 2", "go 0 panic 1", "go 1 panic 2", "release 0", "release 1", "k", "go 2 ok", "go 3 ok", "go 4 ok", "k", "release 3", "release 2", "wait", "release 4", "k"}},
 		{Lines: []string{"@ C19 lim -2", "wait", "go 0 panic 5", "wait", "release 0", "wait", "k"}},
+		// panic values of every dynamic type, then further submissions get all n slots
+		{Lines: []string{"@ C19 lim 2", "go 0 panic nil", "go 1 panic err:4", "go 2 panic cus:9", "release 1", "release 0", "release 2", "k", "go 3 ok", "go 4 ok", "go 5 panic 0", "k", "release 3", "release 4", "release 5", "wait", "k"}},
+		// every unusual dynamic type once (typed nils, run-time errors, …)
+		{Lines: []string{"@ C19 lim 3", "go 0 panic tnp", "go 1 panic nmap", "go 2 panic nslice", "release 0", "release 1", "release 2", "go 3 panic nfunc", "go 4 panic nchan", "go 5 panic wrapnil", "release 5", "release 4", "release 3", "go 6 panic rtmap", "go 7 panic rtidx", "go 8 panic rtnil", "release 6", "release 7", "release 8", "k", "go 9 ok", "go 10 ok", "go 11 ok", "go 12 ok", "k", "release 9", "release 10", "release 11", "release 12", "wait", "k"}},
+		// Wait(d) expiring while all slots are taken, then more submissions: they must block
+		{Lines: []string{"@ C19 lim 2", "go 0 ok", "go 1 ok", "waitt 2", "go 2 ok", "k", "waitt 1", "waitt 3", "go 3 ok", "release 0", "k", "release 1", "release 2", "release 3", "wait", "k", "go 4 ok", "waitt 2", "release 4", "waitt 2", "k"}},
+		{Lines: []string{"@ C19 lim 1", "waitt 1", "go 0 panic 4", "release 0", "waitt 2", "go 1 ok", "go 2 ok", "release 1", "release 2", "wait", "waitt 1", "k"}},
+		{Lines: []string{"@ C19 lim 0", "go 0 ok", "go 1 ok", "waitt 1", "go 2 ok", "waitt 1", "go 3 ok", "go 4 ok", "k", "release 2", "release 0", "k", "release 1", "release 3", "release 4", "wait", "k"}},
+		// Limiter reuse over several Go/Wait rounds: every Wait must wait for ITS round
+		// (an idle signal cached from an earlier round must not satisfy a later Wait)
+		{Lines: []string{"@ C19 lim 1", "go 0 ok", "release 0", "wait", "go 1 ok", "wait", "release 1", "wait", "go 2 panic nil", "wait", "wait", "release 2", "go 3 ok", "go 4 ok", "release 3", "wait", "release 4", "k"}},
+		{Lines: []string{"@ C19 lim 3", "wait", "go 0 ok", "go 1 ok", "wait", "release 0", "release 1", "wait", "go 2 ok", "wait", "release 2", "go 3 panic err:1", "wait", "release 3", "wait", "k"}},
 	}
 }
 
@@ -638,13 +929,34 @@ func gen(r *core.Rand, tier string) core.Case {
 		canGo := waiting == 0 && len(pending) < 3
 		canRel := len(holding) > 0
 		canWait := len(pending) == 0 && waiting < 2
+		if r.Chance(7) && (n >= 2 || len(holding) == 0) {
+			// Wait(d) that expires while functions are blocked (or returns at once when
+			// idle); the ops after it check that the slots are as before.
+			// Not with limit 1 while a function is inside: there the WaitGroup counter
+			// passes through zero between the Done of one task and the Add of a queued
+			// submission while the helper goroutine of the expired Wait(d) is still inside
+			// l.w.Wait() — sync.WaitGroup then panics in that helper ("WaitGroup is reused
+			// before previous Wait has returned") and the process dies. That crash of the
+			// real code is outside this property (review §observations).
+			lines = append(lines, fmt.Sprintf("waitt %d", []int{1, 3, 10}[r.Intn(3)]))
+			continue
+		}
 		switch r.Pick(50, 32, 9, 9) {
 		case 0:
 			if !canGo {
 				continue
 			}
 			if r.Chance(35) {
-				lines = append(lines, fmt.Sprintf("go %d panic %d", next, r.Range(1, 99)))
+				tok := strconv.Itoa(r.Range(1, 99))
+				switch r.Pick(40, 10, 10, 40) {
+				case 1:
+					tok = fmt.Sprintf("err:%d", r.Range(0, 99))
+				case 2:
+					tok = fmt.Sprintf("cus:%d", r.Range(0, 99))
+				case 3:
+					tok = specialVals[r.Intn(len(specialVals))]
+				}
+				lines = append(lines, fmt.Sprintf("go %d panic %s", next, tok))
 			} else {
 				lines = append(lines, fmt.Sprintf("go %d ok", next))
 			}
@@ -712,6 +1024,8 @@ func classify(c core.Case, out []string) []string {
 			ls = append(ls, "release-panic")
 		case op == "release":
 			ls = append(ls, "release-ok")
+		case op == "waitt":
+			ls = append(ls, "timed-wait")
 		case op == "wait" && o == "waiting":
 			ls = append(ls, "wait-blocks")
 		case op == "wait":
